@@ -15,7 +15,7 @@ EXPLANATION = (
     "function is typed_args[arg_index]. The macro side (one __DIVAN_ARGS per function, own type/const per "
     "instantiation) is R12.2/R12.3 (C12)."
     " R17.5 macro side (engine E3, on the expansions of the corpus and of the repository's own programs): one shared argument cell (a static of type BenchArgs) per attributed function, every runner closure of every generic instantiation goes through that one cell, each GenericBenchEntry instantiates the function with the type / constant it is labelled with, and the args expression is the one written."
-    " R17.6 EntryConst::name caches in its own cell, no statics shared between consts.")
+    " R17.6 EntryConst::name caches in its own cell, no statics shared between consts. R17.7 the checked downcast every argument-type decision goes through: cast_ref::<T>() is Some(self) exactly when is_type_eq::<Self, T>() and None otherwise; is_type_eq::<A, B>() compares the ids of A and B; proxy_type_id::<T>() is the id of a closure type over PhantomData<T>.")
 NOT_DECIDED = ["ToString/Debug output equality for user types", "programs outside the analysed macro corpus (C12)"]
 
 
